@@ -3,7 +3,8 @@ from . import core, forest_adapter as A
 
 DEVS = [("Dev_FalsyParent", {"ArchSubset"}), ("Dev_ParentSetFirst", {"RefusedNoop", "UidAligned", "ParentMirror"}),
         ("Dev_RecurseDropsArch", {"GetVSound"}), ("Dev_LookupUidFirst", {"Findable"}),
-        ("Dev_UidCollision", {"UidUnique", "Findable"})]
+        ("Dev_UidCollision", {"UidUnique", "Findable"}),
+        ("Dev_TopKeepsParent", {"UidUnique", "UidAligned", "ParentMirror", "Findable", "GetVSound"})]
 
 
 def run(ctx):
